@@ -193,8 +193,14 @@ func runDPT(e *Env) {
 							payload[0] = 0
 						}
 					}
+					before := append([]byte(nil), payload...)
 					if err := in.d.Unpack(payload); err != nil {
 						// rejected payloads leave us in an unknown but private state: re-read it
+					}
+					if !bytes.Equal(before, payload) {
+						// the caller's buffer is shared state too: a second decode of it (into another
+						// instance, by another goroutine) must see what the first one saw
+						e.Violate("C19", "decode-modifies-input", "caller %d: %s.Unpack changed the payload it was given from %x to %x", k, in.name, before, payload)
 					}
 					in.want = in.d.Pack()
 					in.str = in.d.String()
@@ -214,6 +220,24 @@ func runDPT(e *Env) {
 					if len(l) != len(names) {
 						e.Violate("C19", "list-unstable", "ListSupportedTypes returned %d names, then %d", len(names), len(l))
 					}
+					got := append([]string(nil), l...)
+					sort.Strings(got)
+					if !reflect.DeepEqual(got, names) {
+						e.Violate("C19", "list-unstable", "ListSupportedTypes no longer returns the set of names it returned at first (e.g. %d names, first difference near %q)", len(got), firstDiff(got, names))
+					}
+					// the caller does with its list what it likes (filter in place, overwrite, sort):
+					// that must not reach the registry or anybody else's list
+					switch e.Choose("wl.listuse", 3) {
+					case 1:
+						for j := range l {
+							l[j] = "scribbled"
+						}
+					case 2:
+						sort.Sort(sort.Reverse(sort.StringSlice(l)))
+						if len(l) > 2 {
+							l[0], l[1] = l[1], l[1]
+						}
+					}
 				default:
 					verify("periodic check")
 				}
@@ -223,4 +247,16 @@ func runDPT(e *Env) {
 	}
 	e.WaitDone("callers", time.Second, func() bool { return left == 0 })
 	e.Probe(fmt.Sprintf("instances-%d+", len(keep)/100*100))
+}
+
+func firstDiff(a, b []string) string {
+	for i := range a {
+		if i >= len(b) || a[i] != b[i] {
+			return a[i]
+		}
+	}
+	if len(b) > len(a) {
+		return b[len(a)]
+	}
+	return ""
 }
